@@ -97,6 +97,59 @@ theorem slots_agree_with_sys (ex pc : RD) (c : Sys.Cfg) (h : c.execCores = execC
   simp only [slots, mergeCores, Sys.slotsOf, h, ht]
   cases pc.cores <;> cases pc.threads <;> simp
 
+/-! ### file mode -/
+
+/-- **Precedence in file mode**: every key the call specifies wins (cores included: file mode has no
+    "1 means unset" exception), the executor level supplies only what the call leaves unspecified. -/
+theorem file_precedence (ex pc : RD) :
+    (fileEffective ex pc).cores = (match pc.cores with | some c => some c | none => ex.cores) ∧
+    (fileEffective ex pc).threads = (match pc.threads with | some t => some t | none => ex.threads) ∧
+    (fileEffective ex pc).gpus = (match pc.gpus with | some g => some g | none => ex.gpus) ∧
+    (fileEffective ex pc).cwd = (match pc.cwd with | some d => some d | none => ex.cwd) ∧
+    (fileEffective ex pc).oversub = (match pc.oversub with | some o => some o | none => ex.oversub) ∧
+    (fileEffective ex pc).extra = (match pc.extra with | some a => some a | none => ex.extra) := by
+  refine ⟨?_, ?_, ?_, ?_, ?_, ?_⟩ <;> simp only [fileEffective] <;> split <;> simp_all
+
+/-- **Scoped to that call / no leak, file mode**: a sequence of tasks leaves the executor-level
+    dictionary and every caller's dictionary (in particular the shared default `{}` of `submit`) as
+    they were; the resources of task `i` are `fileEffective ex (pcs[i])`. -/
+theorem file_frame (ex : RD) (pcs : List RD) :
+    fileDispatchAll ex pcs = (ex, pcs, pcs.map (fileEffective ex)) := by
+  induction pcs with
+  | nil => rfl
+  | cons pc rest ih => simp [fileDispatchAll, fileDispatchOne, ih]
+
+/-- a call without a per-call dictionary gets the executor-level resources exactly -/
+theorem file_plain_call (ex : RD) : fileEffective ex {} = ex := by
+  cases ex; simp [fileEffective]
+
+/-- the defaults only fill in: a given executor-level `cores` / `cwd` survives -/
+theorem file_defaults_keep (ex : RD) (c : Nat) (h : ex.cores = some c) : (fileDefaults ex).cores = some c := by
+  simp [fileDefaults, h]
+
+/-- **The task is launched with the effective cores in the effective working directory (file mode)**:
+    `mpiexec`'s option grammar (the SPEC of C16) reads the effective number of cores back from the
+    command, followed by the unmodified worker command; the `cwd` given to `Popen` is the effective one. -/
+theorem file_launch_exact (ex pc : RD) (py s p f cd : Tok) (hpy : C16.IsMpiCmd py)
+    (d : Option Tok) (hd : (fileEffective ex pc).cwd = some d) :
+    let n := (fileEffective ex pc).cores.getD 1
+    (fileLaunch (fileEffective ex pc) py s p f cd).2 = d ∧
+    mpiParse (fileLaunch (fileEffective ex pc) py s p f cd).1 =
+      some (if n > 1 then { procs := natStr n, oversub := false } else { procs := "1".toList, oversub := false },
+            [py, if n > 1 then p else s, f]) := by
+  intro n
+  refine ⟨by simp [fileLaunch, hd], ?_⟩
+  by_cases h : n > 1
+  · have h1 : ¬ n = 1 := by omega
+    have := C16.mpiexec_exact n false py [p, f] hpy
+    simp only [mpiexecPrefix, h1, if_false, overSeg, List.cons_append, List.nil_append, List.append_nil] at this
+    simp only [fileLaunch, fileCmd, n, h, if_true] at *
+    simpa [h1] using this
+  · have := C16.mpiexec_exact 1 false py [s, f] hpy
+    simp only [mpiexecPrefix, if_true, List.nil_append] at this
+    simp only [fileLaunch, fileCmd, n, h, if_false] at *
+    simpa using this
+
 /-! Non-vacuity: three calls with different requests on one executor-level dictionary. -/
 example :
     dispatchAll { cores := some 2, cwd := some none, oversub := some false }
